@@ -81,7 +81,7 @@ var profiles = map[string]Profile{
 		"Touch": 1, "Purge": 2, "SetWithMeta": 2, "DeleteWithMeta": 1, "PutDDoc": 5, "DelDDoc": 1, "View": 22, "Reopen": 1}, MinOps: 8, MaxOps: 30, MaxKeys: 4, MaxColl: 2, OnDiskPct: 20, ReopenPct: 50, ExpPct: 5, ViewBodies: true},
 	"C19": {Name: "C19", W: weights{"Set": 10, "SetRaw": 4, "Add": 3, "Delete": 4, "Remove": 1, "WriteCas": 4, "Update": 3, "Incr": 2, "SetXattrs": 4, "UpdateXattrs": 2,
 		"WriteWithXattrs": 4, "WriteTombstoneWithXattrs": 3, "WriteResurrectionWithXattrs": 2, "DeleteWithXattrs": 2, "WriteUpdateWithXattrs": 2, "WriteSubDoc": 2,
-		"Touch": 1, "Purge": 2, "Query": 20, "Reopen": 1, "RecreateColl": 2, "DeleteSubDocPaths": 3, "RemoveXattrs": 2}, MinOps: 6, MaxOps: 26, MaxKeys: 4, MaxColl: 3, OnDiskPct: 50, ReopenPct: 50, ExpPct: 5, ViewBodies: true, JSONOnly: true},
+		"Touch": 1, "Purge": 2, "Query": 20, "Reopen": 1, "RecreateColl": 2, "DeleteSubDocPaths": 3, "RemoveXattrs": 2, "CreateIndex": 2}, MinOps: 6, MaxOps: 26, MaxKeys: 4, MaxColl: 3, OnDiskPct: 50, ReopenPct: 50, ExpPct: 5, ViewBodies: true, JSONOnly: true},
 	"C14": {Name: "C14", FaultPct: 40, W: weights{"Set": 6, "SetRaw": 3, "Add": 4, "AddRaw": 2, "WriteCas": 5, "Delete": 3, "Remove": 1, "Update": 3, "Incr": 3, "Touch": 8, "GetAndTouchRaw": 4,
 		"UpdateXattrs": 4, "WriteWithXattrs": 5, "WriteResurrectionWithXattrs": 2, "WriteTombstoneWithXattrs": 2, "WriteUpdateWithXattrs": 3, "SetXattrs": 1, "SetWithMeta": 2,
 		"DeleteWithXattrs": 1, "WriteSubDoc": 1, "Advance": 14, "Reopen": 3, "Purge": 1}, MinOps: 5, MaxOps: 26, MaxKeys: 3, MaxColl: 2, OnDiskPct: 30, ReopenPct: 100, ExpPct: 75, ShortExp: true},
@@ -310,7 +310,7 @@ func (g *gen) op(kind string) Op {
 	op := Op{Kind: kind}
 	op.Key = g.keys[g.r.Intn(len(g.keys))]
 	op.Coll = g.r.Intn(g.ncoll)
-	if g.twoB && g.r.Chance(25) && kind != "Backfill" && kind != "Purge" && kind != "Reopen" && kind != "Restart" && kind != "Advance" && kind != "Clock" && kind != "RecreateColl" && kind != "EnsureColl" && kind != "HLCBurst" && kind != "PutDDoc" && kind != "DelDDoc" && kind != "View" && kind != "Query" {
+	if g.twoB && g.r.Chance(25) && kind != "Backfill" && kind != "Purge" && kind != "Reopen" && kind != "Restart" && kind != "Advance" && kind != "Clock" && kind != "RecreateColl" && kind != "EnsureColl" && kind != "CreateIndex" && kind != "HLCBurst" && kind != "PutDDoc" && kind != "DelDDoc" && kind != "View" && kind != "Query" {
 		op.Handle, op.Coll = 9, 0
 	}
 	small := g.p.SmallDoc > 0
@@ -598,9 +598,9 @@ func (g *gen) op(kind string) Op {
 			op.Handle = g.r.Intn(2) // design documents are replaced and queried through either of two handles
 		}
 	case "Query":
-		kinds := []string{"ids", "idbody", "idge", "num", "str", "xattr", "count", "xnull", "idnum", "veq"}
+		kinds := []string{"ids", "idbody", "idge", "num", "str", "xattr", "count", "xnull", "idnum", "veq", "like"}
 		if !g.p.JSONOnly {
-			kinds = []string{"ids", "idge", "xattr", "count", "xnull", "idnum"} // raw bodies around: only queries that do not parse the body
+			kinds = []string{"ids", "idge", "xattr", "count", "xnull", "idnum", "like"} // raw bodies around: only queries that do not parse the body
 		}
 		op.Key = ""
 		op.Path = kinds[g.r.Intn(len(kinds))]
@@ -611,6 +611,8 @@ func (g *gen) op(kind string) Op {
 			op.Body = strp(fmt.Sprintf(`{"min":%d}`, g.r.Intn(12)))
 		case "str":
 			op.Body = strp(fmt.Sprintf(`{"s":"t%d"}`, g.r.Intn(3)))
+		case "like":
+			op.Body = strp([]string{`{"pat":"K%"}`, `{"pat":"k%"}`, `{"pat":"K1%"}`, `{"pat":"zz%"}`}[g.r.Intn(4)])
 		case "idnum":
 			op.Body = strp(fmt.Sprintf(`{"n":%d}`, 1+g.r.Intn(4)))
 		case "veq":
@@ -625,6 +627,9 @@ func (g *gen) op(kind string) Op {
 		op.Key = ""
 		op.Coll = 0
 		op.Dur = []int{100, 5000, 70000, 140000}[g.r.Intn(4)]
+	case "CreateIndex":
+		op.Key = ""
+		op.Dur = g.r.Intn(100)
 	case "EnsureColl":
 		op.Key = ""
 	case "RecreateColl":
